@@ -1,0 +1,8 @@
+//go:build !verif
+
+package syncer
+
+// verifYield marks a point at which a verification harness may let the
+// application commit a transaction or stop the instance. It does nothing
+// unless built with the 'verif' tag.
+func verifYield(point string) {}
